@@ -113,6 +113,15 @@ func F64Lit(f float64) Term {
 	return Term{fmt.Sprintf("|f64:%016x|", math.Float64bits(f)), SF64}
 }
 
+// i2fTerm converts an integer term to float64; integer literals become float
+// literals (Go rounds to nearest in both constant and run-time conversions).
+func i2fTerm(t Term) Term {
+	if n, ok := isIntLit(t); ok {
+		return F64Lit(float64(n))
+	}
+	return T("(i2f "+t.S+")", SF64)
+}
+
 func f64LitDecl(sym string) string {
 	var b uint64
 	fmt.Sscanf(sym, "|f64:%x|", &b)
